@@ -24,6 +24,23 @@ UNITS = ["cedar_policy_core.lib", "cedar_policy.lib", "cedar_policy_formatter.li
 REPO = os.environ.get("CEDAR_REPO", "/repo")
 
 
+ARITH_ASSERTS = ("assert:overflow", "assert:remzero", "assert:divzero")
+
+
+def interval_proved(f):
+    """{(block, assert kind): True} for the arithmetic asserts of f that the interval analysis proves unreachable."""
+    from lib import interval
+    if len(f.blocks) > 400:
+        return {}
+    try:
+        a = interval.Analysis(f, max_paths=512).run()
+    except interval.Unsupported:
+        return {}
+    except Exception:
+        return {}
+    return {k: v for k, v in a.asserts.items() if v}
+
+
 def current_sites(facts, units=UNITS):
     out = []
     stats = {"functions": 0, "derive_fns": 0, "generated_fns": 0}
@@ -39,9 +56,18 @@ def current_sites(facts, units=UNITS):
                 continue
             f = facts.fns[name]
             stats["functions"] += 1
+            proved = None
             for s in panics.sites(f):
                 if panics.is_derive(s["mac"]):
                     continue
+                if s["kind"].startswith(ARITH_ASSERTS):
+                    # discharged by idiom, re-proved on every run: interval abstract interpretation of the function proves
+                    # that the overflow / zero-divisor assert cannot fire on any feasible path (lib/interval.py)
+                    if proved is None:
+                        proved = interval_proved(f)
+                    if proved.get((s["block"], s["kind"][len("assert:"):])):
+                        stats["asserts_discharged_by_intervals"] = stats.get("asserts_discharged_by_intervals", 0) + 1
+                        continue
                 s["fn"] = name
                 s["guards"] = panics.guards(f, s["block"])
                 out.append(s)
